@@ -1,9 +1,10 @@
 import Driver.OpsCore
+import Driver.OpsRoads
 import Driver.OpsAlloc
 import Driver.OpsFn
 namespace Driver
 
-def handlers : List Handler := [handleCore, handleAlloc, handleFn]
+def handlers : List Handler := [handleCore, handleRoads, handleAlloc, handleFn]
 
 def step (st : St) (line : String) : St × String :=
   match (line.trimAscii.toString.splitOn " ").filter (· ≠ "") with
